@@ -86,6 +86,8 @@ type Obligation struct {
 	Props  []string
 	Goal   *Term
 	NFacts int
+	PC     *Term  // path condition of the point the obligation belongs to (facts guarded by a contradicting path condition are not used)
+	Gap    [2]int // path-guarded facts with index in [Gap[0], Gap[1]) belong to code executed after this point was reached: not used
 	Pos    token.Position
 	Src    string
 	Ctx    *FnCtx
@@ -107,6 +109,9 @@ type FnCtx struct {
 	fc       *FuncContract
 	facts    []*Term
 	triggers []*Term
+	factGuarded []bool // fact i is guarded by the path condition of the point it was generated at
+	factPC      []*Term // that path condition (nil: none)
+	gap      [2]int    // while a return point is being checked: facts generated after that point was reached (indices)
 	trigNth  map[int]bool // fact index -> trigger is 'some element of the trigger sequence is mentioned'
 	obls     []*Obligation
 	kindOrd  map[string]int
@@ -181,6 +186,8 @@ func (c *FnCtx) addFact(st *State, f *Term) {
 	}
 	c.facts = append(c.facts, c.closeFact(g))
 	c.triggers = append(c.triggers, nil)
+	c.factGuarded = append(c.factGuarded, !st.pc.IsTrue())
+	c.factPC = append(c.factPC, st.pc)
 }
 
 // closeFact universally closes a fact over bound variables that occur free in it (facts generated while a
@@ -206,6 +213,8 @@ func (c *FnCtx) addFactT(st *State, trig, f *Term) {
 	}
 	c.facts = append(c.facts, c.closeFact(g))
 	c.triggers = append(c.triggers, trig)
+	c.factGuarded = append(c.factGuarded, !st.pc.IsTrue())
+	c.factPC = append(c.factPC, st.pc)
 }
 
 func (c *FnCtx) addObl(st *State, kind, anchor string, goal *Term, pos token.Pos, src string) {
@@ -214,10 +223,26 @@ func (c *FnCtx) addObl(st *State, kind, anchor string, goal *Term, pos token.Pos
 	}
 	o := c.addObl1(st, kind, anchor, goal, pos, src)
 	// a postcondition / invariant at a point reached over several merged paths may alternatively be proved path by path
-	if o != nil && o.Status != "trivial" && kind != "cover" && st.pc.kind == kApp && st.pc.op == "or" && len(st.pc.args) <= 8 {
+	if o != nil && o.Status != "trivial" && kind != "cover" {
 		ts := c.eng.ts
-		for _, d := range st.pc.args {
-			o.Parts = append(o.Parts, ts.Skolemize(ts.Implies(d, goal)))
+		switch {
+		case st.pc.kind == kApp && st.pc.op == "or" && len(st.pc.args) <= 8:
+			for _, d := range st.pc.args {
+				o.Parts = append(o.Parts, ts.Skolemize(ts.Implies(d, goal)))
+			}
+		case st.pc.kind == kApp && st.pc.op == "and":
+			// case split on the widest disjunction among the conjuncts of the path condition
+			var best *Term
+			for _, cj := range st.pc.args {
+				if cj.kind == kApp && cj.op == "or" && len(cj.args) >= 2 && len(cj.args) <= 8 && (best == nil || len(cj.args) > len(best.args)) {
+					best = cj
+				}
+			}
+			if best != nil {
+				for _, d := range best.args {
+					o.Parts = append(o.Parts, ts.Skolemize(ts.Implies(ts.And(st.pc, d), goal)))
+				}
+			}
 		}
 	}
 }
@@ -237,7 +262,7 @@ func (c *FnCtx) addObl1(st *State, kind, anchor string, goal *Term, pos token.Po
 	c.kindOrd[kind]++
 	fname := c.top.RelString(c.top.Pkg.Pkg)
 	name := fmt.Sprintf("%s:%s:%s", fname, kind, anchor)
-	o := &Obligation{Name: name, Kind: kind, Func: fname, Goal: g, NFacts: len(c.facts), Src: src, Ctx: c}
+	o := &Obligation{Name: name, Kind: kind, Func: fname, Goal: g, NFacts: len(c.facts), Gap: c.gap, PC: st.pc, Src: src, Ctx: c}
 	if pos.IsValid() {
 		o.Pos = c.eng.ld.Fset.Position(pos)
 	}
@@ -305,6 +330,8 @@ func (c *FnCtx) getCell(st *State, cell *Cell) *Term {
 				// sentinel errors of other packages (io.EOF, io.ErrNoProgress, ...) are non-nil and never reassigned
 				c.facts = append(c.facts, c.eng.ts.Not(c.eng.tc.IsNilVal(cell.init)))
 				c.triggers = append(c.triggers, nil)
+				c.factGuarded = append(c.factGuarded, false)
+				c.factPC = append(c.factPC, nil)
 			}
 		}
 	}
@@ -456,6 +483,7 @@ type layerInfo struct {
 	wm     *Term   // objects with id < wm ...
 	old    *Term   // ... have the same content as in this heap
 	except []*Term // ... except these objects
+	fresh  bool    // wm is the watermark at entry of the verified function ("havoc fresh-maps")
 }
 
 func (c *FnCtx) hget(st *State, name string, sort Sort, obj *Term) *Term {
@@ -506,6 +534,8 @@ func (c *FnCtx) frameFacts(h, idx *Term) {
 				f := ts.Implies(ts.And(conds...), ts.Eq(ts.Select(t, idx), ts.Select(li.old, idx)))
 				c.facts = append(c.facts, c.closeFact(f))
 				c.triggers = append(c.triggers, nil)
+				c.factGuarded = append(c.factGuarded, false)
+				c.factPC = append(c.factPC, nil)
 			}
 			walk(li.old)
 		}
